@@ -701,7 +701,7 @@ class Gen:
 			ps.append(f'**{self.fresh("kw")}' + (f': {self.type_expr(1)}' if rng.random() < 0.5 else ''))
 		return ', '.join(ps)
 
-	def funcdef(self, d: int, ctx: str, ind: int, in_class: bool = False) -> list[str]:
+	def funcdef(self, d: int, ctx: str, ind: int, in_class: bool = False, force: str | None = None) -> list[str]:
 		rng = self.rng
 		out: list[str] = []
 		name = self.fresh('f')
@@ -717,7 +717,11 @@ class Gen:
 				name, first = '__init__', 'self'
 			else:
 				first = 'self'
-			r2 = rng.random()
+			if force == 'static':
+				# a static-style helper: decorated @staticmethod, or undecorated without `self` (then also classify:method-without-self-name)
+				name, first = (name if name != '__init__' else self.fresh('f')), None
+				deco_first = 'staticmethod' if rng.random() < 0.6 else None
+			r2 = rng.random() if force is None else 1.0
 			if r2 < 0.05 and deco_first is None and name != '__init__':
 				first = rng.choice(['this', 'me', None])  # known divergence classify:method-without-self-name
 			elif r2 < 0.07 and deco_first == 'staticmethod':
@@ -746,6 +750,10 @@ class Gen:
 			if rng.random() < 0.4:
 				body.append(self.line(ind + 1, f'super().__init__({self.items(1)})'))
 		body += self.block(d, 'method' if in_class else 'func', ind + 1)
+		if rng.random() < 0.12:
+			# a class declared inside this function / method (function → class → def, class → method → class → def): the defs of its
+			# body are class-level functions by Python's scoping however deep the class is nested
+			body += self.classdef(max(d - 1, 0), ind + 1, local=True)
 		if rng.random() < 0.04:
 			# a triple-quoted string statement that is not first (known divergence canon:docstring-hoisted)
 			prefix = self.indent_unit * (ind + 1)
@@ -753,7 +761,7 @@ class Gen:
 			body.insert(rng.choice(spots), self.line(ind + 1, '"""late %d"""' % self.n))
 		return out + body
 
-	def classdef(self, d: int, ind: int) -> list[str]:
+	def classdef(self, d: int, ind: int, local: bool = False) -> list[str]:
 		rng = self.rng
 		out = self.decorators(ind, None)
 		name = self.fresh('C')
@@ -779,6 +787,8 @@ class Gen:
 				body += self.funcdef(max(d - 1, 0), 'class', ind + 2, in_class=True)
 			else:
 				body += self.funcdef(max(d - 1, 0), 'class', ind + 1, in_class=True)
+		if local and rng.random() < 0.7:
+			body += self.funcdef(0, 'class', ind + 1, in_class=True, force='static')
 		if rng.random() < 0.15 and d > 0:
 			body += self.classdef(d - 1, ind + 1)
 		if not body:
